@@ -321,6 +321,24 @@ def check(run):
                     continue
                 retry_max = max(retry_max, v)
                 retry_hist[str(v) if v < 3 else ">=3"] += 1
+            # retries of the code length code's own tree (limit 5) inside BrotliStoreHuffmanTree
+            qh = []
+            for c, b in zip(cases, mod):
+                if c.split()[0] == "B" and not b.startswith(("PANIC", "OUTOFFUEL", "TOOL")):
+                    dv = b.split()[0]
+                    if sum(1 for x in dv.split(",") if x != "0") >= 5:
+                        qh.append("Q H " + dv)
+            cl_hist, cl_max = {"0": 0, "1": 0, "2": 0, ">=3": 0}, 0
+            for q in vlib.run_lines(model, qh):
+                try:
+                    v = int(q)
+                except ValueError:
+                    continue
+                if v >= 0:
+                    cl_max = max(cl_max, v)
+                    cl_hist[str(v) if v < 3 else ">=3"] += 1
+            run.cov["cl_tree_retry_runs"] = cl_hist
+            run.cov["cl_tree_retry_max"] = cl_max
         run.note("profile %s: %d explicit cases, %d hashed ranges, %d spec failures/disagreements" % (prof, len(cases), len(rs), nbad))
     run.cov["evaluations"] = total_eval
     run.cov["distinct_nontrivial"] = len({c for c in cases if nontrivial(c)})
